@@ -371,7 +371,7 @@ class C16:
                   # the interrupted call may raise; it may never RETURN NORMALLY with wrong data (DESIGN 3.6)
                   if out[0] == 'ok':
                       want = spell_from_name(*model[touched])
-                      bump(probes)
+                      bump(probes, 'interrupted_call_returned_normally')
                       if want is not None and out[1] != want:
                           add_v('export-wrong', 'export-wrong/returned-normally-after-injected-' + op['payload'], seq, want, out[1], pool_index=touched)
                   after_fault = True
